@@ -2,6 +2,7 @@ package c16
 
 import (
 	"math/rand"
+	"strings"
 
 	"go.starlark.net/syntax"
 
@@ -355,8 +356,31 @@ func mkUndefFree(g *generator, ctx *lctx) site {
 	return site{expr: u, pos: &u.NamePos, sub: "free", msg: "local variable " + ctx.freeUndef + " referenced before assignment"}
 }
 
+// wideName is a fresh identifier, sometimes thousands of runes long (column padding for statement sites).
+func (g *generator) wideName(prefix string) string {
+	n := g.fresh(prefix)
+	if !g.small && g.r.Intn(3) == 0 {
+		if k := g.drawCols(); k > len(n) {
+			g.padChars += k
+			g.feat("pad:long-identifier")
+			n += "_" + strings.Repeat("q", k-len(n)-1)
+		}
+	}
+	return n
+}
+
+// wideList is a list literal, sometimes with a long string element first.
+func (g *generator) wideList(elems ...syntax.Expr) syntax.Expr {
+	if !g.small && g.r.Intn(3) == 0 {
+		if k := g.drawCols(); k > 2 {
+			return list(append([]syntax.Expr{g.padString(k, g.r.Intn(3) == 0)}, elems...)...)
+		}
+	}
+	return list(elems...)
+}
+
 func (g *generator) targets2(form int) syntax.Expr {
-	a, b := id(g.fresh("u")), id(g.fresh("u"))
+	a, b := id(g.wideName("u")), id(g.fresh("u"))
 	switch form {
 	case 0:
 		t := &syntax.TupleExpr{List: []syntax.Expr{a, b}}
@@ -455,7 +479,7 @@ func (g *generator) assignable(ctx *lctx) (string, []syntax.Stmt) {
 	if len(ctx.assign) > 0 && g.r.Intn(2) == 0 {
 		return ctx.assign[g.r.Intn(len(ctx.assign))], nil
 	}
-	v := g.fresh("a")
+	v := g.wideName("a")
 	return v, []syntax.Stmt{assign(id(v), ilit(1))}
 }
 
@@ -497,7 +521,7 @@ func mkSetIndex(g *generator, ctx *lctx) site {
 	var msg, sub string
 	switch g.r.Intn(5) {
 	case 0:
-		x, y, msg, sub = list(ilit(0)), ilit(5), "out of range", "list-range"
+		x, y, msg, sub = g.wideList(ilit(0)), ilit(g.r.Int63n(5)+5), "out of range", "list-range"
 	case 1:
 		x, y, msg, sub = &syntax.DictExpr{}, list(), "unhashable", "unhashable"
 	case 2:
@@ -513,7 +537,7 @@ func mkSetIndex(g *generator, ctx *lctx) site {
 }
 
 func mkSetField(g *generator, ctx *lctx) site {
-	x := pick(g.r, g.ivar(ctx), syntax.Expr(slit("s")), syntax.Expr(list()), syntax.Expr(id("None")))
+	x := pick(g.r, g.ivar(ctx), syntax.Expr(slit("s")), g.wideList(), syntax.Expr(id("None")))
 	lhs := &syntax.DotExpr{X: x, Name: id("f")}
 	s := assign(lhs, g.iv(ctx))
 	return site{stmt: s, pos: &lhs.Dot, msg: "can't assign to .f field"}
